@@ -63,6 +63,12 @@ def main():
         os.makedirs(os.path.join(wt, "tests"), exist_ok=True)
         open(os.path.join(wt, "tests", "seeded_demo.rs"), "w").write(demo)
         passed, compiled, r = demo_result(wt, feats)
+        if passed and compiled:
+            # a change that only manifests without debug assertions / overflow checks: try the release profile
+            passed, compiled, r = demo_result(wt, feats + ["--release"])
+            if not passed:
+                feats = feats + ["--release"]
+                meta["demo_needs_release_profile"] = True
         meta["demo_with_change"] = {"passed": passed, "compiled": compiled, "result": r}
         sh(["git", "apply", "-R", patch], cwd=wt)
         passed0, compiled0, r0 = demo_result(wt, feats)
